@@ -188,6 +188,9 @@ def run(tier: str) -> int:
         obs = c["obs"]
         pos = [i for i in obs if i > 0]
         log_iv = pos[0] if pos else obs[0]
+        neg = [i for i in obs if i < 0]
+        if neg and ci % 3 == 0:
+            log_iv = neg[0]   # a one-shot default logger (and restart observer): the header is still written once, first
         seed = 1000 + ci
         nrep += 1
         zero = any(call["n"] == 0 and call["entry"] != "rebuild" for call in c["plan"])
